@@ -88,7 +88,8 @@ def gen_case(rng, max_cards=40, audit_types=None, allow_style_off=True, max_roun
     cids = [f"K{j}" for j in range(ncon)]
     polling = audit_type == W.POLLING
     use_style = False if polling else (rng.chance(0.75) if allow_style_off else True)
-    contests = {cid: W.gen_contest(rng, cid, audit_type, kinds=kinds) for cid in cids}
+    shared_names = rng.chance(0.3)
+    contests = {cid: W.gen_contest(rng, cid, audit_type, kinds=kinds, shared_names=shared_names) for cid in cids}
     # ---- fault plan: which kinds are enabled, at what rate
     fault_free = rng.chance(0.15) if force_fault_free is None else force_fault_free
     rate = {k: (0.0 if fault_free else rng.pick(rates or RATES)) for k in
@@ -212,13 +213,15 @@ def gen_case(rng, max_cards=40, audit_types=None, allow_style_off=True, max_roun
                 frac[cid] = min(1.0, frac[cid] + rng.pick([0.0, 0.05, 0.2, 0.5, 1.0]))
         variant = variant_mode if variant_mode != "mixed" else rng.pick(["redraw", "continue"])
         rounds.append({"frac": dict(frac), "variant": "redraw" if r == 0 else variant,
+                       "size_from_estimate": bool(r > 0 and rng.chance(0.25)),
                        "rebuild": bool(r > 0 and variant != "continue" and rng.chance(0.15)),
                        "shuffle": rng.getrandbits(32)})
     return {
         "world": world, "cvrs": cvrs, "cards": [{k: c[k] for k in ("id", "tab", "batch", "pos")} for c in cards],
         "ballots": {c["id"]: c["ballot"] for c in cards} if polling else None,
         "batches": batches, "lost": lost, "mvr": mvr, "phantom_label": phantom_label,
-        "numbering": {"mode": rng.pick(["sha256", "sched", "sched"]), "seed": rng.getrandbits(64)},
+        "numbering": {"mode": rng.pick(["sha256", "sched", "sched", "rank"]), "seed": rng.getrandbits(64)},
+        "early_margins": rng.chance(0.4),
         "tickets": tickets, "phantom_tickets": phantom_tickets,
         "rounds": rounds, "fault_free": fault_free,
     }
